@@ -42,6 +42,9 @@ type Case struct {
 	// Before, when set, puts a sprint in front: the session starts with these settings, sends a message, waits, and the
 	// resume then brings the environment and the contact to Allowed/ContactLang; the localized items are resolved after it.
 	Before *Before `json:"before,omitempty"`
+	// AllURNs: the message goes to all of the contact's URNs (tel on a channel that has a translation of the message's
+	// channel template, twitter on one that has none), so one action creates a templated and a plain message
+	AllURNs bool `json:"all_urns,omitempty"`
 }
 
 // Before is the state of the session before its environment and contact were refreshed.
@@ -118,9 +121,15 @@ func (c Case) assets() json.RawMessage {
 			loc[lang] = l
 		}
 	}
+	sendMsg := M{"uuid": msgUUID, "type": "send_msg", "text": native["text"][0], "attachments": native["attachments"], "quick_replies": native["quick_replies"]}
+	if c.AllURNs {
+		sendMsg["all_urns"] = true
+		sendMsg["template"] = M{"uuid": world.UUID("template", 1), "name": "affirmation"}
+		sendMsg["template_variables"] = []string{"@contact.name", "boy"}
+	}
 	node := M{"uuid": world.UUID("node", 1),
 		"actions": []M{
-			{"uuid": msgUUID, "type": "send_msg", "text": native["text"][0], "attachments": native["attachments"], "quick_replies": native["quick_replies"]},
+			sendMsg,
 			{"uuid": resUUID, "type": "set_run_result", "name": "Answer", "value": "v", "category": native["category"][0]},
 		},
 		"router": M{"type": "switch", "operand": "@trigger.params.word", "result_name": "Routed",
@@ -140,7 +149,7 @@ func (c Case) assets() json.RawMessage {
 		nodes = []M{first, node}
 	}
 	flow := M{"uuid": world.UUID("flow", 1), "name": "L10n", "spec_version": "13.6.0", "language": "eng", "type": "messaging", "revision": 1, "expire_after_minutes": 0, "localization": loc, "nodes": nodes}
-	b, _ := json.Marshal(M{"flows": []M{flow}, "channels": world.Channels()})
+	b, _ := json.Marshal(M{"flows": []M{flow}, "channels": world.Channels(), "templates": world.MsgTemplates()})
 	return b
 }
 
@@ -198,6 +207,7 @@ type msgEvent struct {
 		Attachments  []string `json:"attachments"`
 		QuickReplies []string `json:"quick_replies"`
 		Locale       string   `json:"locale"`
+		Templating   any      `json:"templating"`
 	} `json:"msg"`
 }
 
@@ -223,6 +233,9 @@ func run(c Case) *harn.Failure {
 	}
 	mkContact := func(lang string) M {
 		contact := M{"uuid": world.UUID("contact", 1), "id": 1, "status": "active", "created_on": "2015-01-01T10:00:00Z", "name": "Bob", "urns": []string{"tel:+250788123456"}}
+		if c.AllURNs {
+			contact["urns"] = []string{"tel:+250788123456", "twitter:bob"}
+		}
 		if lang != "" {
 			contact["language"] = lang
 		}
@@ -263,9 +276,13 @@ func run(c Case) *harn.Failure {
 	var msg *msgEvent
 	for _, raw := range sp.Events {
 		e := msgEvent{}
-		if json.Unmarshal(raw, &e) == nil && e.Type == "msg_created" {
+		// messages built from a channel template carry that template's content and locale: the statement is about the others
+		if json.Unmarshal(raw, &e) == nil && e.Type == "msg_created" && e.Msg.Templating == nil {
 			msg = &e
 		}
+	}
+	if c.AllURNs {
+		stats.Label("all-urns-with-template")
 	}
 	if msg == nil {
 		return harn.Failf("msg-created", "no msg_created event")
@@ -374,6 +391,7 @@ func TestLocalization(t *testing.T) {
 				c.Trans[p][l] = rapid.IntRange(0, 4).Draw(rt, p+"/"+l)
 			}
 		}
+		c.AllURNs = rapid.IntRange(0, 3).Draw(rt, "allurns") == 0
 		if rapid.Bool().Draw(rt, "history") {
 			b := &Before{ContactLang: rapid.SampledFrom(contactLangs).Draw(rt, "clang0"), Allowed: rapid.SampledFrom(allowedLists).Draw(rt, "allowed0"),
 				Reload: rapid.Bool().Draw(rt, "reload"), RefreshEnv: rapid.IntRange(0, 3).Draw(rt, "refreshenv") > 0}
